@@ -18,7 +18,8 @@ def main():
         mod = None
         if os.path.exists(path):
             mod = core.load_module(pid)
-        if mod is None or not getattr(mod, "READY", False):
+        claimed = json.load(open(os.path.join(core.VERIF, "tools", "claimed.json")))
+        if mod is None or not getattr(mod, "READY", False) or pid not in claimed:
             na.append({"property_id": pid,
                        "reason": na_reasons.get(pid, "not yet claimed: the Lean model, theorems and correspondence "
                                                 "check for this property are still being built (see DESIGN.md)")})
